@@ -57,6 +57,11 @@ type kvElection struct {
 	ctx    context.Context
 	cancel context.CancelFunc
 
+	// termCancel cancels the context of the current leadership term (the
+	// heartbeat and validation loops and the context handed to OnPromote).
+	// Guarded by mu.
+	termCancel context.CancelFunc
+
 	onPromote func(ctx context.Context, token string)
 	onDemote  func()
 
@@ -407,16 +412,26 @@ func (e *kvElection) becomeLeader(token string, rev uint64) {
 		)...,
 	)
 
+	// Everything that belongs to this term runs under a context that ends with
+	// the term (demotion for any reason, or Stop through the parent context), so
+	// that loops of an earlier term cannot survive into a later one and work
+	// bound to the OnPromote context never outlives the leadership.
+	termCtx, termCancel := context.WithCancel(e.ctx)
+	if e.termCancel != nil {
+		e.termCancel()
+	}
+	e.termCancel = termCancel
+
 	e.wg.Add(1)
 	go func() {
 		defer e.wg.Done()
-		e.heartbeatLoop(e.ctx)
+		e.heartbeatLoop(termCtx)
 	}()
 
 	e.wg.Add(1)
 	go func() {
 		defer e.wg.Done()
-		e.validationLoop(e.ctx)
+		e.validationLoop(termCtx)
 	}()
 
 	if e.onPromote != nil {
@@ -438,7 +453,7 @@ func (e *kvElection) becomeLeader(token string, rev uint64) {
 					)
 				}
 			}()
-			promoteCtx, cancel := context.WithCancel(e.ctx)
+			promoteCtx, cancel := context.WithCancel(termCtx)
 			defer cancel()
 			e.onPromote(promoteCtx, token)
 		}()
@@ -544,6 +559,10 @@ func (e *kvElection) becomeFollowerLocked() bool {
 		e.recordLeaderDuration()
 		e.leaderStartTime.Store(time.Time{})
 	}
+	if e.termCancel != nil {
+		e.termCancel()
+		e.termCancel = nil
+	}
 
 	e.recordTransition(fromState, StateFollower)
 	e.updateIsLeaderMetric()
@@ -588,6 +607,10 @@ func (e *kvElection) Stop() error {
 
 	if e.cancel != nil {
 		e.cancel()
+	}
+	if e.termCancel != nil {
+		e.termCancel()
+		e.termCancel = nil
 	}
 
 	if wasLeader {
@@ -667,6 +690,10 @@ func (e *kvElection) StopWithContext(ctx context.Context, opts StopOptions) erro
 
 	if e.cancel != nil {
 		e.cancel()
+	}
+	if e.termCancel != nil {
+		e.termCancel()
+		e.termCancel = nil
 	}
 
 	e.isLeader.Store(false)
